@@ -2,7 +2,7 @@
 import json
 import shutil
 
-from .. import common, pipeline, tla
+from .. import canary, common, pipeline, tla
 from .. import d_alias as D
 
 CFG = """SPECIFICATION Spec
@@ -37,6 +37,7 @@ def main(tier):
             events += o
         rep.mark("drive")
         res = tla.judge("J_Alias", events, chunk=8000 if not thorough else 20000, jobs=common.jobs())
+        pipeline.canaries(rep, "J_Alias", events[::max(1, len(events) // 40)], canary.steps_family, env=None, want=16)
         rep.mark("judge")
         for gi, clause, detail in res["bad"]:
             e = events[gi]
